@@ -57,8 +57,15 @@ func (e *Engine) leanObligations(verifDir, file string, pkgs []string, timeout f
 			continue
 		}
 		name, text := strings.TrimSpace(rest[:i]), normSpace(rest[i+1:])
+		only := ""
+		if j := strings.Index(name, "@"); j > 0 {
+			name, only = name[:j], name[j+1:]
+		}
 		quoted++
 		for _, pk := range pkgs {
+			if only != "" && !strings.HasSuffix(pk, "/"+only) {
+				continue
+			}
 			cf := e.contracts[pk]
 			ok, have := false, "(no such spec func)"
 			if cf != nil {
@@ -137,7 +144,14 @@ func (e *Engine) bridgeOnly(verifDir, file string, pkgs []string) {
 			continue
 		}
 		name, text := strings.TrimSpace(rest[:i]), normSpace(rest[i+1:])
+		only := ""
+		if j := strings.Index(name, "@"); j > 0 {
+			name, only = name[:j], name[j+1:]
+		}
 		for _, pk := range pkgs {
+			if only != "" && !strings.HasSuffix(pk, "/"+only) {
+				continue
+			}
 			cf := e.contracts[pk]
 			ok, have := false, "(no such spec func)"
 			if cf != nil {
